@@ -53,6 +53,15 @@ def free_vars(e, acc=None):
     elif t == 'ucall':
         for a in e[3]:
             free_vars(a, acc)
+    elif t == 'lsum':
+        if e[1] not in acc:
+            acc.append(e[1])
+        for v in free_vars(e[2], []):
+            if v != e[1] + '_elt' and v not in acc:
+                acc.append(v)
+    elif t == 'lmax':
+        if e[1] not in acc:
+            acc.append(e[1])
     elif t == 'pow':
         free_vars(e[1], acc)
     else:
@@ -71,7 +80,9 @@ def uses(e, fn):
         return any(uses(a, fn) for a in e[1])
     if t == 'ucall':
         return any(uses(a, fn) for a in e[3])
-    if t in ('num', 'pi', 'const', 'var'):
+    if t == 'lsum':
+        return uses(e[2], fn)
+    if t in ('num', 'pi', 'const', 'var', 'lmax'):
         return False
     return any(uses(a, fn) for a in e[1:] if isinstance(a, tuple))
 
@@ -111,6 +122,10 @@ def to_coq(e):
         return '(if %s then %s else %s)' % (cond_coq(e[1]), to_coq(e[2]), to_coq(e[3]))
     if t == 'tuple':
         return '(%s)' % ', '.join(to_coq(a) for a in e[1])
+    if t == 'lsum':
+        return '(Rlist_sum (map (fun %s_elt => %s) %s))' % (e[1], to_coq(e[2]), e[1])
+    if t == 'lmax':
+        return '(Rlist_max %s)' % e[1]
     if t == 'ucall':
         # call of a previously generated definition: e = ('ucall', name, extra_binders, [args])
         return '(%s %s)' % (e[1], ' '.join(list(e[2]) + [to_coq(a) for a in e[3]]))
@@ -195,7 +210,27 @@ def evaluate(e, env, funs=None):
         return tuple(evaluate(a, env, F) for a in e[1])
     if t == 'ucall':
         return F['user:' + e[1]]([evaluate(a, env, F) for a in e[3]])
+    if t == 'lsum':
+        tot = 0.0
+        for x in env[e[1]]:
+            env2 = _Overlay(env, e[1] + '_elt', x)
+            tot += evaluate(e[2], env2, F)
+        return tot
+    if t == 'lmax':
+        return max(env[e[1]])
     raise ValueError('cannot evaluate %r' % (e,))
+
+
+class _Overlay(object):
+    def __init__(self, base, k, v):
+        self.base, self.k, self.v = base, k, v
+
+    def __getitem__(self, k):
+        return self.v if k == self.k else self.base[k]
+
+
+def lifted(e, lists):
+    return any(v.endswith('_elt') and v[:-4] in lists for v in free_vars(e, []))
 
 
 def evalc(c, env, F):
